@@ -590,3 +590,261 @@ func enclosingDeclName(m *model.Model, p *packages.Package, n ast.Node) string {
 	}
 	return "?"
 }
+
+// READ-DATA-BEFORE-ERROR: the contract of io.Reader.Read.
+func ruleReadDataBeforeError() check.Rule {
+	return check.Rule{
+		Name:        "READ-DATA-BEFORE-ERROR",
+		NeedControl: true,
+		Doc:         "io.Reader: \"Callers should always process the n > 0 bytes returned before considering the error err\" — a Read may return the last bytes together with io.EOF or with a failure. For every call `n, err := r.Read(buf)` on a value whose static type is an interface, in the data plugins: the count n is used before the first test of err that follows the call, or inside the failure branch of that test. A reader observable that looks at err first drops the final chunk, so the concatenation of what it emits is not the input",
+		Run: func(c *check.Ctx) {
+			m := c.M
+			n := 0
+			for _, p := range m.Pkgs {
+				armed := c.ArmedPkg(p.PkgPath)
+				if !strings.Contains(p.PkgPath, "/plugins/") && !check.IsControlName("") {
+					// controls live in package ro
+				}
+				info := p.TypesInfo
+				for _, fn := range funcNodes(p) {
+					body := funcBody(fn)
+					if body == nil {
+						continue
+					}
+					k := 0
+					ast.Inspect(body, func(x ast.Node) bool {
+						if l, ok := x.(*ast.FuncLit); ok && ast.Node(l) != fn {
+							return false
+						}
+						as, ok := x.(*ast.AssignStmt)
+						if !ok || len(as.Lhs) != 2 || len(as.Rhs) != 1 {
+							return true
+						}
+						call, ok := ast.Unparen(as.Rhs[0]).(*ast.CallExpr)
+						if !ok {
+							return true
+						}
+						sel, ok := ast.Unparen(call.Fun).(*ast.SelectorExpr)
+						if !ok || sel.Sel.Name != "Read" || len(call.Args) != 1 {
+							return true
+						}
+						rt := info.TypeOf(sel.X)
+						if rt == nil {
+							return true
+						}
+						if _, isIface := rt.Underlying().(*types.Interface); !isIface {
+							return true // a concrete reader: its own documentation applies
+						}
+						sig, _ := info.TypeOf(sel).(*types.Signature)
+						if sig == nil || sig.Results().Len() != 2 || !isErrorType(sig.Results().At(1).Type()) {
+							return true
+						}
+						nID, _ := as.Lhs[0].(*ast.Ident)
+						eID, _ := as.Lhs[1].(*ast.Ident)
+						if nID == nil || eID == nil || nID.Name == "_" || eID.Name == "_" {
+							return true
+						}
+						nObj, eObj := objOf(info, nID), objOf(info, eID)
+						n++
+						k++
+						key := fmt.Sprintf("%s/read#%d-data-before-error", chainKey(m, p, m.EnclosingFuncs(p, fn), scLits(m)), k)
+						// the first if (or switch) after the call whose condition mentions err
+						var test ast.Node
+						var failure ast.Node
+						ast.Inspect(body, func(y ast.Node) bool {
+							if test != nil || y == nil || y.Pos() < as.End() {
+								return test == nil
+							}
+							mentionsErr := func(e ast.Node) bool {
+								f := false
+								if e == nil {
+									return false
+								}
+								ast.Inspect(e, func(z ast.Node) bool {
+									if id, ok := z.(*ast.Ident); ok && objOf(info, id) == eObj {
+										f = true
+									}
+									return !f
+								})
+								return f
+							}
+							switch s := y.(type) {
+							case *ast.IfStmt:
+								if mentionsErr(s.Cond) {
+									test, failure = s, s.Body
+								}
+							case *ast.SwitchStmt:
+								if s.Tag != nil && mentionsErr(s.Tag) {
+									test, failure = s, s.Body
+								}
+							}
+							return test == nil
+						})
+						usesN := func(root ast.Node, from, to token.Pos) bool {
+							f := false
+							ast.Inspect(root, func(z ast.Node) bool {
+								if id, ok := z.(*ast.Ident); ok && id != nID && objOf(info, id) == nObj && id.Pos() >= from && id.Pos() < to {
+									f = true
+								}
+								return !f
+							})
+							return f
+						}
+						switch {
+						case test == nil:
+							if armed {
+								c.OK(key, call.Pos(), "the error is not tested in this function after the call")
+							}
+						case usesN(body, as.End(), test.Pos()):
+							if armed {
+								c.OK(key, call.Pos(), "the bytes read are processed before the error is considered")
+							}
+						case failure != nil && usesN(failure, failure.Pos(), failure.End()):
+							if armed {
+								c.OK(key, call.Pos(), "the failure branch processes the bytes read")
+							}
+						default:
+							c.Report(armed, key, test.Pos(), "the result of Read is tested for an error before — and its failure branch leaves without — looking at the %s bytes that were read: a reader that returns its last bytes together with io.EOF (or with a failure) loses them, the emitted chunks no longer add up to the input", nID.Name)
+						}
+						return true
+					})
+				}
+			}
+			c.Inc("interface_read_calls", n)
+		},
+	}
+}
+
+const controlsReadDataBeforeError = `
+func verifControlReadErrFirst(r interface{ Read(p []byte) (int, error) }, out func([]byte)) {
+	buf := make([]byte, 16)
+	for {
+		n, err := r.Read(buf)
+		if err != nil {
+			return
+		}
+		out(buf[:n])
+	}
+}
+`
+
+// FLUSH-ERROR-CHECKED: a buffered writer whose Flush reports through Error() is asked before the stream completes.
+func ruleFlushErrorChecked() check.Rule {
+	return check.Rule{
+		Name:        "FLUSH-ERROR-CHECKED",
+		NeedControl: true,
+		Doc:         "for every call x.Flush() on a type whose Flush returns nothing and that has an `Error() error` method (encoding/csv.Writer: \"To check if an error occurred during Flush, call Error\") inside a callback that afterwards sends Complete to the destination: x.Error() is called between the Flush and the Complete. The rows are buffered, so the failure of the underlying writer surfaces at Flush only; a sink that completes without asking reports success — Next(count), Complete — although nothing was written",
+		Run: func(c *check.Ctx) {
+			m := c.M
+			n := 0
+			for _, sc := range m.SCs {
+				armed := c.Armed(sc)
+				if !armed && !check.IsControlName(sc.Name) {
+					continue
+				}
+				info := sc.Pkg.TypesInfo
+				for _, fn := range append([]ast.Node{sc.Lit}, nestedLits(sc.Lit)...) {
+					body := funcBody(fn)
+					var flushes []*ast.CallExpr
+					ast.Inspect(body, func(x ast.Node) bool {
+						if l, ok := x.(*ast.FuncLit); ok && ast.Node(l) != fn {
+							return false
+						}
+						call, ok := x.(*ast.CallExpr)
+						if !ok {
+							return true
+						}
+						sel, ok := ast.Unparen(call.Fun).(*ast.SelectorExpr)
+						if !ok || sel.Sel.Name != "Flush" || len(call.Args) != 0 {
+							return true
+						}
+						if sig, _ := info.TypeOf(sel).(*types.Signature); sig == nil || sig.Results().Len() != 0 {
+							return true
+						}
+						rt := info.TypeOf(sel.X)
+						if rt == nil {
+							return true
+						}
+						if o, _, _ := types.LookupFieldOrMethod(rt, true, sc.Pkg.Types, "Error"); o != nil {
+							if f, ok := o.(*types.Func); ok {
+								if s2, _ := f.Type().(*types.Signature); s2 != nil && s2.Params().Len() == 0 && s2.Results().Len() == 1 && isErrorType(s2.Results().At(0).Type()) {
+									flushes = append(flushes, call)
+								}
+							}
+						}
+						return true
+					})
+					for _, fl := range flushes {
+						// a Complete sent to the destination later in the same function
+						var complete *model.EmitSite
+						for _, e := range sc.Emits {
+							if e.ToDest && e.Kind == model.EmitComplete && e.Pos > fl.End() && e.Pos < body.End() && innermostFunc(m, sc.Pkg, e.Node) == fn {
+								complete = e
+								break
+							}
+						}
+						if complete == nil {
+							continue
+						}
+						n++
+						key := fmt.Sprintf("%s/flush-error-checked", complete.Key)
+						asked := false
+						recv := ast.Unparen(fl.Fun).(*ast.SelectorExpr).X
+						ast.Inspect(body, func(x ast.Node) bool {
+							call, ok := x.(*ast.CallExpr)
+							if !ok || call.Pos() < fl.End() || call.Pos() > complete.Pos {
+								return true
+							}
+							if sel, ok := ast.Unparen(call.Fun).(*ast.SelectorExpr); ok && sel.Sel.Name == "Error" && len(call.Args) == 0 && sameLvalue(info, sel.X, recv) {
+								asked = true
+							}
+							return true
+						})
+						if asked {
+							if armed {
+								c.OK(key, fl.Pos(), "Error() is consulted between the Flush and the Complete")
+							}
+						} else {
+							c.Report(armed, key, complete.Pos, "Complete is sent after %s.Flush() without asking %s.Error(): a failure of the underlying writer (which the buffering defers to the flush) is reported as a successful completion", types.ExprString(recv), types.ExprString(recv))
+						}
+					}
+				}
+			}
+			c.Inc("flush_then_complete_sites", n)
+		},
+	}
+}
+
+func nestedLits(root *ast.FuncLit) []ast.Node {
+	var out []ast.Node
+	ast.Inspect(root.Body, func(x ast.Node) bool {
+		if l, ok := x.(*ast.FuncLit); ok {
+			out = append(out, l)
+		}
+		return true
+	})
+	return out
+}
+
+const controlsFlushError = `
+type verifControlFlusher struct{ err error }
+
+func (f *verifControlFlusher) Flush()       {}
+func (f *verifControlFlusher) Error() error { return f.err }
+
+func verifControlFlushNotAsked[T any](w *verifControlFlusher) func(Observable[T]) Observable[T] {
+	return func(source Observable[T]) Observable[T] {
+		return NewUnsafeObservableWithContext(func(subscriberCtx context.Context, destination Observer[T]) Teardown {
+			sub := source.SubscribeWithContext(subscriberCtx, NewObserverWithContext(
+				destination.NextWithContext,
+				destination.ErrorWithContext,
+				func(ctx context.Context) {
+					w.Flush()
+					destination.CompleteWithContext(ctx)
+				},
+			))
+			return sub.Unsubscribe
+		})
+	}
+}
+`
